@@ -32,9 +32,20 @@ impl C13 {
         ctx.sample("refusal", || input());
     }
 
+    /// entry point for C12: same oracle, without re-counting the shape classes
+    pub fn native_only(&self, ctx: &mut Ctx, class: &str, spec: &FSpec, p: &P) {
+        self.native_impl(ctx, class, spec, p, false)
+    }
+
     fn native(&self, ctx: &mut Ctx, class: &str, spec: &FSpec, p: &P) {
+        self.native_impl(ctx, class, spec, p, true)
+    }
+
+    fn native_impl(&self, ctx: &mut Ctx, class: &str, spec: &FSpec, p: &P, count_classes: bool) {
         let input = || json!({"functor": format!("{:?}", spec), "f": show(p)});
-        classify(ctx, spec, p);
+        if count_classes {
+            classify(ctx, spec, p);
+        }
         if !p.e.is_empty() && p.w.iter().any(|o| spec.obj(o).len() != 1) {
             ctx.nontrivial(&(spec, p));
         }
